@@ -5,6 +5,7 @@
 //   dumpref    enc=<enc> lo=<cp> hi=<cp>  reference encoding of all scalars in [lo,hi) (checked against CPython codecs by the checker)
 //   sweep12    kind=u8 len=<1..4> lo=<first byte> hi=<first byte>   /  kind=u16 | kind=u32
 #include "vh_common.h"
+#include <memory>
 #include "bitserializer/convert.h"
 
 using namespace BitSerializer;
@@ -101,8 +102,11 @@ template <class Ch> static std::string bytesFromUnits(const std::basic_string<Ch
 template <class TUtf, class InCh, class OutCh>
 static Res callDecode(const std::basic_string<InCh>& in, std::basic_string<OutCh>& out, U::UtfEncodingErrorPolicy pol, const OutCh* mark, bool defMark) {
 	Res r;
-	const InCh* b = in.data();
-	const InCh* e = in.data() + in.size();
+	// exact-size heap copy without a terminator: a read at or behind `end` is seen by AddressSanitizer
+	std::unique_ptr<InCh[]> exact(new InCh[in.size()]);
+	std::copy(in.begin(), in.end(), exact.get());
+	const InCh* b = exact.get();
+	const InCh* e = exact.get() + in.size();
 	auto res = defMark ? TUtf::Decode(b, e, out, pol) : TUtf::Decode(b, e, out, pol, mark);
 	r.ec = int(res.ErrorCode); r.iter = long(res.Iterator - b); r.count = res.InvalidSequencesCount;
 	return r;
@@ -110,8 +114,10 @@ static Res callDecode(const std::basic_string<InCh>& in, std::basic_string<OutCh
 template <class TUtf, class InCh, class OutCh>
 static Res callEncode(const std::basic_string<InCh>& in, std::basic_string<OutCh>& out, U::UtfEncodingErrorPolicy pol, const OutCh* mark, bool defMark) {
 	Res r;
-	const InCh* b = in.data();
-	const InCh* e = in.data() + in.size();
+	std::unique_ptr<InCh[]> exact(new InCh[in.size()]);
+	std::copy(in.begin(), in.end(), exact.get());
+	const InCh* b = exact.get();
+	const InCh* e = exact.get() + in.size();
 	auto res = defMark ? TUtf::Encode(b, e, out, pol) : TUtf::Encode(b, e, out, pol, mark);
 	r.ec = int(res.ErrorCode); r.iter = long(res.Iterator - b); r.count = res.InvalidSequencesCount;
 	return r;
